@@ -60,7 +60,7 @@ def plan(tier):
     if tier == "thorough":
         return {"runs": 40000, "slice": 50, "budget_s": 2400,
                 "slice_timeout_s": 1200}
-    return {"runs": 1600, "slice": 20, "budget_s": 150,
+    return {"runs": 1200, "slice": 20, "budget_s": 150,
             "slice_timeout_s": 900}
 
 
